@@ -29,7 +29,7 @@ func main() {
 
 	if *prop != "" {
 		type inf struct {
-			Key, ID, Name, Level, Rule, CrashSig string
+			Key, ID, Name, Level, Rule, CrashSig, PanicSig string
 			Cases, Bound                         int
 			Assumptions                          []string
 		}
@@ -40,7 +40,7 @@ func main() {
 			if s.Bound != nil {
 				b = s.Bound(*tier)
 			}
-			out = append(out, inf{k, s.ID, s.Name, s.Level, s.Rule, s.CrashSig, s.Cases(*tier), b, s.Assumptions})
+			out = append(out, inf{k, s.ID, s.Name, s.Level, s.Rule, s.CrashSig, s.PanicSig, s.Cases(*tier), b, s.Assumptions})
 		}
 		json.NewEncoder(os.Stdout).Encode(out)
 		return
